@@ -46,7 +46,7 @@ var parseChain = map[string]bool{
 func init() {
 	register(&propertySpec{
 		ID: "C01", Fixtures: []string{"FMTCONST", "EXTCUT", "GLOB"}, NeedCG: true, Quick: cfgAMD, Thorough: cfgAll,
-		Explanation: "Decides the structural conditions PAR2 repair rests on, for every path of the code: the only failure of reconstruction - a singular or under-determined system - is propagated as an error through every frame from the row reduction up to par2.Repair (ERRFLOW on the reconstruct chain); Repair returns nil only after every buffer it wrote matched the archive's 16k-hash and MD5, and a mismatch returns an error (WGUARD with error returns); writer and reader agree on the coder constructor, on its dimensions being the lengths of the very slices handed to it (the parity table is indexed by exponent), on slice cutting/padding and on the checksum functions (PAIR); every recovery block accepted as a parity shard has the slice size the coder's equal-length precondition needs (SHLEN); per-file damage flags are written to the record Repair reads, not to a copy (DEADST/LOCALCOPY); intact files are recognised with the full per-file predicate (SKIPOK); expected and found slice locations accumulate, so repeated slice contents do not consume recovery blocks (ACCUM); the coder workers partition the slice correctly for every goroutine count (RACE); Repair declares success only through Decoder.Repair (ENTRY-SEQ); the file writer replaces whole files (EFF write-impl). Round-3 additions: after a data file has been read, no return skips the slice search or the two file-level checks (MUSTPASS); elementary row operations cover the whole row of the matrix they touch, also of the wider augmented matrix (ROWCOVER); every surviving recovery block is a candidate row - a nil shard is skipped, it does not end the scan (FILTER). Later additions: format strings, extension cuts and index-path prefixes are literal (FMTCONST, EXTCUT, BASECUT); the checksum map returns exactly m[crc][md5(data)] (GETKEYS); no write follows a failed reconstruction and the not-enough error needs a missing slice (NOWRITE, NEEDSLICE); the file reader returns the OS error itself, which the missing-file test needs (ERRIDENT); no value is copied into a like-typed field of another name (FIELDCROSS); deep comparisons compare like with like (DEEPEQ).",
+		Explanation: "Decides the structural conditions PAR2 repair rests on, for every path of the code: the only failure of reconstruction - a singular or under-determined system - is propagated as an error through every frame from the row reduction up to par2.Repair (ERRFLOW on the reconstruct chain); Repair returns nil only after every buffer it wrote matched the archive's 16k-hash and MD5, and a mismatch returns an error (WGUARD with error returns); writer and reader agree on the coder constructor, on its dimensions being the lengths of the very slices handed to it (the parity table is indexed by exponent), on slice cutting/padding and on the checksum functions (PAIR); every recovery block accepted as a parity shard has the slice size the coder's equal-length precondition needs (SHLEN); per-file damage flags are written to the record Repair reads, not to a copy (DEADST/LOCALCOPY); intact files are recognised with the full per-file predicate (SKIPOK); expected and found slice locations accumulate, so repeated slice contents do not consume recovery blocks (ACCUM); the coder workers partition the slice correctly for every goroutine count (RACE); Repair declares success only through Decoder.Repair (ENTRY-SEQ); the file writer replaces whole files (EFF write-impl). Round-3 additions: after a data file has been read, no return skips the slice search or the two file-level checks (MUSTPASS); elementary row operations cover the whole row of the matrix they touch, also of the wider augmented matrix (ROWCOVER); every surviving recovery block is a candidate row - a nil shard is skipped, it does not end the scan (FILTER). Later additions: format strings, extension cuts and index-path prefixes are literal (FMTCONST, EXTCUT, BASECUT); the checksum map returns exactly m[crc][md5(data)] (GETKEYS); no write follows a failed reconstruction and the not-enough error needs a missing slice (NOWRITE, NEEDSLICE); the file reader returns the OS error itself, which the missing-file test needs (ERRIDENT); no value is copied into a like-typed field of another name (FIELDCROSS); deep comparisons compare like with like (DEEPEQ); a volume file's blocks are used only after its main packet's slice size and file-id sets matched the index file's (VOLCONS); volume discovery lists literally and completely (GLOB, GLOBCALL).",
 		NotDecided:  []string{"that Repair succeeds whenever k blocks survive (matrix algebra, slice search at every offset)", "volume discovery beyond what C06 decides", "the values of the reconstructed bytes"},
 		Run: func(w *World, r *Report, tier string) {
 			guard(r, "ERRFLOW", func() {
@@ -98,7 +98,7 @@ func init() {
 
 	register(&propertySpec{
 		ID: "C03", NeedCG: true, Quick: cfgAMD, Thorough: cfgAll,
-		Explanation: "Decides what the PAR2 verdict is computed from: the verdict predicates are evaluated exhaustively over their finite comparison domain against the table the property states, and the counters are incremented exactly on the nil / non-nil edge of the element they range over, the wrong-file counter exactly under !ok (DECIDE); a slice is recorded as found only for a non-empty CRC32+MD5 lookup of that very slice, packets are accepted only with their MD5 verified over (set id, type, body), packets of other sets are skipped and volume files are read with the decoder's set id (GATE); every per-file and per-slice flag computed while loading can reach the verdict, and is written to the record, not to a local copy of it (DEADST/LOCALCOPY); the expected-location map and the per-slice location sets accumulate - every place a slice content is expected, and every place it is found, is recorded (ACCUM); Verify's result is built from the decoder's counts after both load phases (ENTRY-SEQ). The packet MD5 is computed over set id, type and the whole body (CONST hash orders); no return of the per-file loader skips the whole-file hash or length check (MUSTPASS); the directory is asked for exactly '<base>.' + ext with base cut by length (GLOBCALL). Later additions: the slice search is left only once the position has reached len(data) (SCANALL); the checksum map returns exactly m[crc][md5(data)] (GETKEYS); the volume lister matches literally and completely (GLOB); extension and prefix cuts are by length (EXTCUT, BASECUT); the file reader returns the OS error itself (ERRIDENT); stored names are the decoded wire names (NAMEFID); hash fields are not crossed (FIELDCROSS); parse errors propagate (ERRFLOW on the parsing functions).",
+		Explanation: "Decides what the PAR2 verdict is computed from: the verdict predicates are evaluated exhaustively over their finite comparison domain against the table the property states, and the counters are incremented exactly on the nil / non-nil edge of the element they range over, the wrong-file counter exactly under !ok (DECIDE); a slice is recorded as found only for a non-empty CRC32+MD5 lookup of that very slice, packets are accepted only with their MD5 verified over (set id, type, body), packets of other sets are skipped and volume files are read with the decoder's set id (GATE); every per-file and per-slice flag computed while loading can reach the verdict, and is written to the record, not to a local copy of it (DEADST/LOCALCOPY); the expected-location map and the per-slice location sets accumulate - every place a slice content is expected, and every place it is found, is recorded (ACCUM); Verify's result is built from the decoder's counts after both load phases (ENTRY-SEQ). The packet MD5 is computed over set id, type and the whole body (CONST hash orders); no return of the per-file loader skips the whole-file hash or length check (MUSTPASS); the directory is asked for exactly '<base>.' + ext with base cut by length (GLOBCALL). Later additions: the slice search is left only once the position has reached len(data) (SCANALL); a volume file is accepted only after its main packet matched the index file's slice size and file-id sets (VOLCONS); the checksum map returns exactly m[crc][md5(data)] (GETKEYS); the volume lister matches literally and completely (GLOB); extension and prefix cuts are by length (EXTCUT, BASECUT); the file reader returns the OS error itself (ERRIDENT); stored names are the decoded wire names (NAMEFID); hash fields are not crossed (FIELDCROSS); parse errors propagate (ERRFLOW on the parsing functions).",
 		NotDecided:  []string{"completeness of the slice search (rolling CRC, every offset) - C16", "the count of distinct recovery blocks beyond acceptance"},
 		Run: func(w *World, r *Report, tier string) {
 			guard(r, "DECIDE", func() {
@@ -128,7 +128,7 @@ func init() {
 
 	register(&propertySpec{
 		ID: "C04", Fixtures: []string{"EXTCUT"}, NeedCG: true, Quick: cfgAMD, Thorough: cfgAll,
-		Explanation: "Decides the structural conditions of the PAR1 round trip: encoder and decoder construct the same coder - reedsolomon.New(len(fileData), parity, WithPAR1Matrix()) - (PAIR); a data file counts as usable only after both hashes matched its entry, a parity volume only with verified control hash, the index volume's set hash and the volume number of its file name, and the probing loop covers exactly the volume numbers 1..max (GATE); the counts are incremented on the right edges and the verdict predicates equal the stated table (DECIDE); the coder's too-few-shards / singular error reaches the caller unchanged, where the classifier compares it by identity (ERRFLOW on the PAR1 chain, PAIR-ERRTYPE); the padding length is shown non-negative before make() (MKLEN); the full parity check runs only when all files are usable, names are sized per UTF-16 code unit, and verify/repair declare success only through the decoder (GATE, PAIR, ENTRY-SEQ); the file writer replaces whole files (EFF write-impl). Later additions: extension and prefix cuts by length (EXTCUT, BASECUT); no branch on the decoded name (NAMESYM); only saved entries become shards (SAVEDONLY); the caller's volume count is kept (OPTKEEP); the shard size comes from the first volume found, not from volume 1 (SIZESENT); volume n carries parity row n-1 on both sides (PAR1VOL); hash fields are not crossed (FIELDCROSS); the reader returns the OS error itself (ERRIDENT); written buffers matched their entry and intact files are skipped (WGUARD, SKIPOK).",
+		Explanation: "Decides the structural conditions of the PAR1 round trip: encoder and decoder construct the same coder - reedsolomon.New(len(fileData), parity, WithPAR1Matrix()) - (PAIR); a data file counts as usable only after both hashes matched its entry, a parity volume only with verified control hash, the index volume's set hash and the volume number of its file name, and the probing loop covers exactly the volume numbers 1..max (GATE); the counts are incremented on the right edges and the verdict predicates equal the stated table (DECIDE); the coder's too-few-shards / singular error reaches the caller unchanged, where the classifier compares it by identity (ERRFLOW on the PAR1 chain, PAIR-ERRTYPE); the padding length is shown non-negative before make() (MKLEN); the full parity check runs only when all files are usable, names are sized per UTF-16 code unit, and verify/repair declare success only through the decoder (GATE, PAIR, ENTRY-SEQ); the file writer replaces whole files (EFF write-impl). Later additions: extension and prefix cuts by length (EXTCUT, BASECUT); no branch on the decoded name (NAMESYM); only saved entries become shards (SAVEDONLY); the caller's volume count is kept (OPTKEEP); the shard size comes from the first volume found, not from volume 1 (SIZESENT); volume n carries parity row n-1 on both sides (PAR1VOL); every input path reaches the encoder (ALLINPUTS); hash fields are not crossed (FIELDCROSS); the reader returns the OS error itself (ERRIDENT); written buffers matched their entry and intact files are skipped (WGUARD, SKIPOK).",
 		NotDecided:  []string{"the matrix algebra inside klauspost/reedsolomon", "the range of volume numbers probed and padding arithmetic as values", "UTF-16 name handling beyond using unicode/utf16 on both sides (C10)"},
 		Run: func(w *World, r *Report, tier string) {
 			guard(r, "PAIR", func() { rulePAIRpar1(w, r); rulePAIRERRTYPE(w, r) })
@@ -158,7 +158,7 @@ func init() {
 
 	register(&propertySpec{
 		ID: "C05", NeedCG: true, Quick: cfgAMD, Thorough: cfgAll,
-		Explanation: "Compares what Create emits with tables transcribed from the PAR 2.0 specification, independently of gopar's own reader (a mistake shared by writer and reader keeps every round-trip test green): packet magic and the five packet types by value and their wiring to the body writers, wire struct layouts, little-endian only, IEEE CRC32 and MD5 only, hash input orders of the packet MD5 and the file ID, recovery set id = MD5 of the main packet body as written, a creator packet on every success path, field polynomial 0x1100B, log-domain modulus 65535, generator residues {3,5,17,257} and base 2 (CONST); tables are filled over their whole index range (TABLEFILL); writer and reader use the same coder, slicing and checksums (PAIR); the recovery set is sorted by file id before anything is derived from it (DETERM D-c); the byte partition of the coder workers is word-aligned and covers the slice (RACE). Later additions: the requested recovery block count is kept (OPTKEEP); the generator table keeps its order (GENORDER); the matrix is rows x columns = parity x data with element (i, j) = generators[j]^i (VANDER); every recovery block goes into exactly one volume file under its own exponent - key and shard index are the same expression, a volume holds the run [position, next position), the loop ends only at parityShardCount (VOLCOVER); packets are written with the key they are stored under (EXPKEY); hash fields are not crossed (FIELDCROSS); format strings and prefix cuts are literal (FMTCONST, BASECUT); the bulk kernels cover the buffers they are given (ASM, KGUARD); the writer replaces whole files (EFF write-impl).",
+		Explanation: "Compares what Create emits with tables transcribed from the PAR 2.0 specification, independently of gopar's own reader (a mistake shared by writer and reader keeps every round-trip test green): packet magic and the five packet types by value and their wiring to the body writers, wire struct layouts, little-endian only, IEEE CRC32 and MD5 only, hash input orders of the packet MD5 and the file ID, recovery set id = MD5 of the main packet body as written, a creator packet on every success path, field polynomial 0x1100B, log-domain modulus 65535, generator residues {3,5,17,257} and base 2 (CONST); tables are filled over their whole index range (TABLEFILL); writer and reader use the same coder, slicing and checksums (PAIR); the recovery set is sorted by file id before anything is derived from it (DETERM D-c); the byte partition of the coder workers is word-aligned and covers the slice (RACE). Later additions: the requested recovery block count is kept (OPTKEEP); the generator table keeps its order (GENORDER); the matrix is rows x columns = parity x data with element (i, j) = generators[j]^i (VANDER); every recovery block goes into exactly one volume file under its own exponent - key and shard index are the same expression, a volume holds the run [position, next position), the loop ends only at parityShardCount (VOLCOVER); packets are written with the key they are stored under (EXPKEY); every input path reaches the encoder (ALLINPUTS); hash fields are not crossed (FIELDCROSS); format strings and prefix cuts are literal (FMTCONST, BASECUT); the bulk kernels cover the buffers they are given (ASM, KGUARD); the writer replaces whole files (EFF write-impl).",
 		NotDecided:  []string{"the recovery block values", "that blocks 0..n-1 each occur exactly once across the volume files", "the direction of the file-id ordering beyond byte order"},
 		Run: func(w *World, r *Report, tier string) {
 			guard(r, "CONST", func() { ruleCONST(w, r, constOpts{field: true, generators: true, par2: true}) })
@@ -191,7 +191,7 @@ func init() {
 
 	register(&propertySpec{
 		ID: "C06", Fixtures: []string{"GLOB", "DEEPEQ"}, NeedCG: true, Quick: cfgAMD, Thorough: cfgAll,
-		Explanation: "Decides the reader-side structure that layout independence needs: volume discovery lists the directory with an error-returning API and matches prefix and suffix literally, with no further filter, so no base name is interpreted as a pattern and every '<base>.*.par2' beside the index file is returned (GLOB); a file of the set without a main packet cannot be dereferenced (NILF); packets of other sets and of unknown types are skipped without ending the file or storing anything (GATE G2/G3); the exponent-indexed parity table grows without narrow-type wrap and the coder has a row for every index of it (WIRE S2/S5, PAIR); comparisons of duplicated packets compare like with like and the sparse parity table is never compared as a whole (DEEPEQ); a header-only packet is accepted (CONST length bound). Volume discovery asks for exactly '<base>.' + ext (GLOBCALL); the handling of one packet type never branches on state written while handling another type, so packet order cannot matter (ORDERINDEP); the coder considers every surviving recovery block, also after a gap in the exponents (FILTER). Later additions: extension and prefix cuts by length (EXTCUT, BASECUT); names pass the sanitiser unaltered (SANIT, NAMEFID); a packet is filed under the key parsed with it and a recovery block lands in the table at its own exponent (EXPKEY); parse errors propagate (ERRFLOW on the parsing functions).",
+		Explanation: "Decides the reader-side structure that layout independence needs: volume discovery lists the directory with an error-returning API and matches prefix and suffix literally, with no further filter, so no base name is interpreted as a pattern and every '<base>.*.par2' beside the index file is returned (GLOB); a file of the set without a main packet cannot be dereferenced (NILF); packets of other sets and of unknown types are skipped without ending the file or storing anything (GATE G2/G3); the exponent-indexed parity table grows without narrow-type wrap and the coder has a row for every index of it (WIRE S2/S5, PAIR); comparisons of duplicated packets compare like with like and the sparse parity table is never compared as a whole (DEEPEQ); a header-only packet is accepted (CONST length bound). Volume discovery asks for exactly '<base>.' + ext (GLOBCALL); the handling of one packet type never branches on state written while handling another type, so packet order cannot matter (ORDERINDEP); the coder considers every surviving recovery block, also after a gap in the exponents (FILTER). Later additions: extension and prefix cuts by length (EXTCUT, BASECUT); names pass the sanitiser unaltered (SANIT, NAMEFID); a packet is filed under the key parsed with it and a recovery block lands in the table at its own exponent (EXPKEY); usable recovery blocks are counted from the exponent table, once each (DECIDE counts); parse errors propagate (ERRFLOW on the parsing functions).",
 		NotDecided:  []string{"insensitivity to packet order and duplication as behaviour"},
 		Run: func(w *World, r *Report, tier string) {
 			guard(r, "GLOB", func() { ruleGLOB(w, r, globAll) })
@@ -245,7 +245,7 @@ func init() {
 
 	register(&propertySpec{
 		ID: "C08", NeedCG: true, Quick: cfgAMD32, Thorough: cfgAll,
-		Explanation: "Decides the constants and index arithmetic the field identities depend on: tables are built by reduction modulo 0x1100B, every log-domain modulus is 65535 and equals the table lengths, the tables are filled over their whole range (CONST field, TABLEFILL); every index into a table lies inside it and no intermediate value on the way to an index exceeds its type - zero operands leave before any log lookup, logT*p is formed in 64 bits (RANGE, per GOARCH). Each is necessary: % 65536, a missing zero guard or a 32-bit product all break the stated identities. No value in gf2/gf2p16 passes through a floating-point type or package math (INTONLY). Later additions: 0^p is decided on the unreduced exponent and exponent arithmetic is reduced mod 65535 in 64 bits (ZEROEXP); Div and Inverse return only after the zero test (ZERODIV).",
+		Explanation: "Decides the constants and index arithmetic the field identities depend on: tables are built by reduction modulo 0x1100B, every log-domain modulus is 65535 and equals the table lengths, the tables are filled over their whole range (CONST field, TABLEFILL); every index into a table lies inside it and no intermediate value on the way to an index exceeds its type - zero operands leave before any log lookup, logT*p is formed in 64 bits (RANGE, per GOARCH). Each is necessary: % 65536, a missing zero guard or a 32-bit product all break the stated identities. No value in gf2/gf2p16 passes through a floating-point type or package math (INTONLY). Later additions: 0^p is decided on the unreduced exponent and exponent arithmetic is reduced mod 65535 in 64 bits (ZEROEXP); Div and Inverse return only after the zero test (ZERODIV); the multiplication tables of t.go are filled over their whole index range too (TABLEFILL).",
 		NotDecided:  []string{"the products themselves over 2^32 operand pairs", "gf2.Poly64 multiplication and division as values"},
 		Run: func(w *World, r *Report, tier string) {
 			guard(r, "CONST", func() { ruleCONST(w, r, constOpts{field: true}) })
@@ -270,7 +270,7 @@ func init() {
 
 	register(&propertySpec{
 		ID: "C09", Fixtures: []string{"IDXLEN"}, NeedCG: true, Quick: cfgAMD32, Thorough: cfgAll,
-		Explanation: "Decides 'never read or write outside the given buffers, never modify the input' on all three dispatch paths from source: the twelve assembly TEXT symbols are abstractly interpreted over the assembler's own listing (partial-width operations on lengths, closed-form loop extents, stores only through out*, table operands inside their field, FP operands) and emit caller obligations (ASM); the four production call sites and the two unsafe casts establish them (KGUARD); the exported kernels write out at byte depth only and never in (OWN, amd64/386/arm64 paths); table indices of the portable loops are in range (RANGE); the SSSE3 tables are filled for every constant (TABLEFILL).",
+		Explanation: "Decides 'never read or write outside the given buffers, never modify the input' on all three dispatch paths from source: the twelve assembly TEXT symbols are abstractly interpreted over the assembler's own listing (partial-width operations on lengths, closed-form loop extents, stores only through out*, table operands inside their field, FP operands) and emit caller obligations (ASM); the four production call sites and the two unsafe casts establish them (KGUARD); the exported kernels write out at byte depth only and never in (OWN, amd64/386/arm64 paths); table indices of the portable loops are in range (RANGE); the SSSE3 tables are filled for every constant (TABLEFILL). Later additions: an index counted from the end of a buffer, len(s)-k, is evaluated only where len(s) >= k is known (IDXLEN).",
 		NotDecided:  []string{"out[i] = c*in[i] as values", "behaviour for odd buffer lengths (the API documents even lengths)"},
 		Run: func(w *World, r *Report, tier string) {
 			guard(r, "OWN", func() { ruleOWN(w, r, ownOpts{kernels: true}) })
@@ -456,7 +456,7 @@ func init() {
 
 	register(&propertySpec{
 		ID: "C18", Fixtures: []string{"GLOB", "EFF", "ERRKEEP"}, NeedCG: true, Quick: cfgAMD, Thorough: cfgAll,
-		Explanation: "Decides error discipline over every call site rather than sampled fault indices: every error produced by a call in par1, par2 and cmd/par (where all I/O happens) reaches, on every path on which it may be non-nil, a return in error position, a panic or a no-return call; only os.IsNotExist turns a read failure into 'damage' (ERRFLOW, with per-return-site splitting of the immediately-invoked literals). No success is reported for a write that failed (REPORT), nothing but the file being written is touched and the write primitive replaces the whole file (EFF), and the directory lister uses an error-returning API and matches names literally (GLOB). Decoder state is marked restored only on the success edge of the write (POSTWRITE). Later additions: a deferred or nested function assigns the shared error variable only where it is known nil (ERRKEEP).",
+		Explanation: "Decides error discipline over every call site rather than sampled fault indices: every error produced by a call in par1, par2 and cmd/par (where all I/O happens) reaches, on every path on which it may be non-nil, a return in error position, a panic or a no-return call; only os.IsNotExist turns a read failure into 'damage' (ERRFLOW, with per-return-site splitting of the immediately-invoked literals). No success is reported for a write that failed (REPORT), nothing but the file being written is touched and the write primitive replaces the whole file (EFF), and the directory lister uses an error-returning API and matches names literally (GLOB). Decoder state is marked restored only on the success edge of the write (POSTWRITE). Later additions: a deferred or nested function assigns the shared error variable only where it is known nil (ERRKEEP). A return site that constructs its own error while a read or write error obtained on the way is still unsettled counts as carrying that error (masked sources), so a failure reported to the caller as mere damage is found.",
 		NotDecided:  []string{"that a rerun after the fault completes as if the fault had never occurred", "torn writes", "faults inside the Go runtime or the OS"},
 		Run: func(w *World, r *Report, tier string) {
 			guard(r, "ERRFLOW", func() {
@@ -472,7 +472,7 @@ func init() {
 
 	register(&propertySpec{
 		ID: "C19", NeedCG: true, Quick: cfgAMD32, Thorough: cfgAll,
-		Explanation: "Decides necessary conditions for rejecting well-checksummed but inconsistent archives without crashing: all wire integers (18 discovered fields, the recovery exponent, the decoder's int copies) are bounded before conversion, allocation, slicing and division; narrow-type arithmetic does not wrap before widening (WIRE, per GOARCH); recovery blocks have the slice size (SHLEN); mandatory packets are checked before use (NILF); differences used as lengths are non-negative (MKLEN); header-field table lookups stay in range (RANGE); and no buffer that fails the archive's own 16k-hash or MD5 is written (WGUARD). Later additions: empty checksum lists rejected (IFSCPAIRS); reslicing bounded by len/cap (SLICECAP); one slice record per checksum pair (SHARDTAB); no allocation from an unchecked declared size (ALLOCBOUND); the coder has a row for every exponent index (PAIR decoder dims).",
+		Explanation: "Decides necessary conditions for rejecting well-checksummed but inconsistent archives without crashing: all wire integers (18 discovered fields, the recovery exponent, the decoder's int copies) are bounded before conversion, allocation, slicing and division; narrow-type arithmetic does not wrap before widening (WIRE, per GOARCH); recovery blocks have the slice size (SHLEN); mandatory packets are checked before use (NILF); differences used as lengths are non-negative (MKLEN); header-field table lookups stay in range (RANGE); and no buffer that fails the archive's own 16k-hash or MD5 is written (WGUARD). Later additions: empty checksum lists rejected (IFSCPAIRS); reslicing bounded by len/cap (SLICECAP); one slice record per checksum pair (SHARDTAB); no allocation from an unchecked declared size (ALLOCBOUND); the coder has a row for every exponent index (PAIR decoder dims); a volume file is accepted only after its main packet matched the index file's slice size and file-id sets (VOLCONS).",
 		NotDecided:  []string{"proportional allocation in general (the coder matrix is sized by the highest exponent; the slice size is used as allocation unit)", "full panic freedom", "overflow of products such as index*sliceSize"},
 		Run: func(w *World, r *Report, tier string) {
 			guard(r, "WIRE", func() {
